@@ -208,7 +208,7 @@ func (r *RegistryImpl) Begin(ctx context.Context, engine interface{}, readOnly b
 			method := val.MethodByName("BeginTransaction")
 
 			if !method.IsValid() {
-				err = fmt.Errorf("engine does not have BeginTransaction method")
+				resultCh <- txResult{nil, fmt.Errorf("engine does not have BeginTransaction method")}
 				return
 			}
 
@@ -219,7 +219,7 @@ func (r *RegistryImpl) Begin(ctx context.Context, engine interface{}, readOnly b
 
 			// Check for errors
 			if !results[1].IsNil() {
-				err = results[1].Interface().(error)
+				resultCh <- txResult{nil, results[1].Interface().(error)}
 				return
 			}
 
@@ -230,15 +230,10 @@ func (r *RegistryImpl) Begin(ctx context.Context, engine interface{}, readOnly b
 			err = fmt.Errorf("nil engine provided to transaction registry")
 		}
 
-		select {
-		case resultCh <- txResult{tx, err}:
-			// Successfully sent result
-		case <-timeoutCtx.Done():
-			// Context timed out, but try to rollback if we got a transaction
-			if tx != nil {
-				tx.Rollback()
-			}
-		}
+		// The channel is buffered, so this never blocks. If the caller has given
+		// up in the meantime, it has left a receiver behind that rolls the
+		// transaction back (see the timeout case below).
+		resultCh <- txResult{tx, err}
 	}()
 
 	// Wait for result or timeout
@@ -268,6 +263,14 @@ func (r *RegistryImpl) Begin(ctx context.Context, engine interface{}, readOnly b
 		return txID, nil
 
 	case <-timeoutCtx.Done():
+		// The goroutine above may still be waiting for the database lock and
+		// obtain a transaction later. Nobody would ever finish it, and it
+		// would hold the lock forever: roll it back as soon as it arrives.
+		go func() {
+			if result := <-resultCh; result.tx != nil {
+				result.tx.Rollback()
+			}
+		}()
 		return "", fmt.Errorf("transaction creation timed out: %w", timeoutCtx.Err())
 	}
 }
